@@ -548,6 +548,10 @@ class HierDictDocument(DictDocument):
             return self._object_to_doc(st, inst, tags)
 
         if issubclass(cls, ComplexModelBase):
+            if inst is None:
+                # no object is not an empty object
+                return None
+
             return self._complex_to_doc(cls, inst, tags)
 
         if issubclass(cls, (ByteArray, Uuid)):
